@@ -66,7 +66,9 @@ class Gen:
             text, _ = inject(sl, make_pub=make_pub, **kw2)
             ob = text.index('{', len(text) - len(sl.text[sl.text.index('{'):]) - 1) if False else None
             head_end = text.rindex(sl.text[sl.text.index('{'):])
-            text = '#[verifier::external_body]\n' + text[:head_end] + '{ unimplemented!() }'
+            # a stub has no body: `mut` on its parameters means nothing (and `mut self` is itself outside Verus's reach)
+            stub_head = re.sub(r'([(,]\s*)mut\s+(\w+\s*[:,)])', r'\1\2', text[:head_end])
+            text = '#[verifier::external_body]\n' + stub_head + '{ unimplemented!() }'
             self.stubbed.append(oid)
             self.rec(sl, oid, mod, kind, dropped='BODY NOT VERIFIED (stubbed as external_body)')
             return text
@@ -600,6 +602,7 @@ impl OrdSpecImpl for Version { open spec fn obeys_cmp_spec() -> bool { true } op
         'file': path,
         'functions': g.functions,
         'inventory': inventory(repo, g.functions),
+        'unsafe': [('%s:%d' % (rel, i)) for rel in ('src/lib.rs', 'src/range.rs') if os.path.exists(os.path.join(repo, rel)) for i, l in enumerate(open(os.path.join(repo, rel)).read().split('\n'), 1) if re.search(r'\bunsafe\b', l.split('//')[0])],
         'clauses': clauses,
         'lost_hints': g.lost_hints,
         'lost_items': g.lost_items,
